@@ -27,7 +27,8 @@ from .. import refphot as rp
 
 PROPERTY = "C12"
 RULE = ("seeded device specifications (X-series with 2-5 mode pairs, squeezing ranges [0,1] / {0} u [a,b] / [a,b]; Borealis-type "
-        "loop devices with random loop-phase certificates, 46-60 time bins) x source programs (exact template; squeezers in any "
+        "loop devices with random loop-phase certificates, 46-60 time bins; single-loop homodyne devices for the TDM / TD2 compilers "
+        "with 2-8 time bins, fixed squeezing literal, interval and single-value ranges) x source programs (exact template; squeezers in any "
         "order, missing, zero, repeated, negative, out of range; the same interferometer on both halves given as Interferometer "
         "in any mesh, as beamsplitter/rotation/MZ sequences, Haar / permutation / identity / real / block-diagonal; programs "
         "only Xcov can take (phases on the squeezers, extra idler phases, BipartiteGraphEmbed, single-mode squeezers + "
@@ -44,7 +45,7 @@ ASSUMPTIONS = [
     "conformance is judged, not equivalence",
 ]
 REQUIRED_MONITORS = ["conformance:layout", "conformance:ranges", "equivalence:state", "equivalence:photon-statistics",
-                     "rejections", "tdm:conformance", "tdm:equivalence"]
+                     "rejections", "tdm:conformance", "tdm:equivalence", "tdm1:conformance", "tdm1:unchanged"]
 MAX_SKIP_FRACTION = 0.05
 
 TWO_PI = 2 * np.pi
@@ -826,6 +827,102 @@ def run_tdm_case(case, rep, env):
             V("compile:borealis", "statistics-changed:fock", "P%s over the brightest pulses differs by %.3g" % (wp, w))
 
 
+# ---------------------------------------------------------------------------------------------------
+# single-loop time-domain devices (TDM / TD2 compilers): the compiler only checks, it must not rewrite
+# ---------------------------------------------------------------------------------------------------
+
+def gen_tdm1_case(rng):
+    tm = int(rng.integers(2, 9))
+    cls = str(rng.choice(["exact", "exact", "exact", "literal-changed", "out-of-range", "wrong-gate", "wrong-modes", "too-many-bins",
+                          "phase-literal-changed", "extra-gate", "boundary-values", "single-value-range"]))
+    return {"family": "tdm1", "tm": tm, "cls": cls, "compiler": str(rng.choice(["TDM", "TD2"])), "r_lit": float(np.round(rng.uniform(0.2, 0.9), 4)),
+            "bs": rng.uniform(0, TWO_PI, tm).tolist(), "r": rng.uniform(0, np.pi, tm).tolist(), "m": rng.uniform(0, TWO_PI, tm).tolist(),
+            "temporal_max": int(rng.integers(tm, tm + 4)), "pass_compiler": bool(rng.random() < 0.5)}
+
+
+def run_tdm1_case(case, rep, env):
+    sf, ops = env["sf"], env["ops"]
+    V = lambda locus, kind, what: rep.violation(locus, kind, what, case)
+    tm, comp, cls = case["tm"], case["compiler"], case["cls"]
+    layout = "\n".join([
+        "name template_tdm", "version 1.0", "target %s (shots=1)" % comp, "type tdm (temporal_modes=%d, copies=1)" % tm, "",
+        "float array p1[1, %d] =" % tm, "    {r}", "float array p2[1, %d] =" % tm, "    {bs}", "float array p3[1, %d] =" % tm, "    {m}", "",
+        "Sgate(%s, 0) | 1" % repr(case["r_lit"]), "BSgate({bs}, 0) | (1, 0)", "Rgate({r}) | 1", "MeasureHomodyne({m}) | 0"]) + "\n"
+    gp = {"bs": [0, [0, TWO_PI]], "r": [0, [0, np.pi], np.pi], "m": [0, [0, TWO_PI]]}
+    if cls == "single-value-range":
+        gp["r"] = [0, np.pi / 2, np.pi]
+    spec = {"target": comp, "layout": layout, "modes": {"concurrent": 2, "spatial": 1, "temporal_max": case["temporal_max"]},
+            "compiler": [comp], "gate_parameters": gp}
+    reset_compilers(env)
+    device = env["Device"](spec=spec)
+    bs, r, m = list(case["bs"]), list(case["r"]), list(case["m"])
+    r_lit = case["r_lit"]
+    if cls == "literal-changed":
+        r_lit = r_lit + 0.1
+    if cls == "out-of-range":
+        which = int(case["tm"]) % 3
+        (bs, r, m)[which][0] = 7.5 if which != 1 else 3.6
+    if cls == "boundary-values":
+        bs[0], r[0], m[0] = TWO_PI, np.pi, 0.0
+    if cls == "single-value-range":
+        r = [float(np.random.default_rng(tm).choice([0.0, np.pi / 2, np.pi])) for _ in r]
+        if tm % 2:
+            r[-1] = 1.0  # not one of the three allowed values
+    if cls == "too-many-bins":
+        extra = case["temporal_max"] - tm + 1
+        bs, r, m = bs + [0.1] * extra, r + [0.1] * extra, m + [0.1] * extra
+    prog = sf.TDMProgram(N=2)
+    with prog.context(bs, r, m) as (p, q):
+        if cls == "wrong-gate":
+            ops.Dgate(r_lit) | q[1]
+        else:
+            ops.Sgate(r_lit, 0) | q[1]
+        if cls == "wrong-modes":
+            ops.BSgate(p[0]) | (q[0], q[1])
+        elif cls == "phase-literal-changed":
+            ops.BSgate(p[0], 0.3) | (q[1], q[0])
+        else:
+            ops.BSgate(p[0]) | (q[1], q[0])
+        if cls == "extra-gate":
+            ops.Rgate(0.2) | q[0]
+        ops.Rgate(p[1]) | q[1]
+        ops.MeasureHomodyne(p[2]) | q[0]
+    src_arrays = [list(map(float, a)) for a in prog.tdm_params]
+    try:
+        compiled = prog.compile(device=device, **({"compiler": comp} if case["pass_compiler"] else {}))
+    except (env["CircuitError"], ValueError) as e:
+        rep.monitor("rejections")
+        rep.observe("tdm1-rejected:%s:%s" % (cls, type(e).__name__))
+        rep.case(["tdm1", cls, tm, comp], False)
+        return
+    rep.case(["tdm1", cls, tm, comp, rnd(bs, 4), rnd(r, 4)], True)
+    rep.observe("tdm1-compiled:" + cls)
+    rep.monitor("tdm1:conformance")
+    exp = [("Sgate", (1,)), ("BSgate", (1, 0)), ("Rgate", (1,)), ("MeasureHomodyne", (0,))]
+    got = [(type(c.op).__name__, tuple(x.ind for x in c.reg)) for c in compiled.circuit]
+    if got != exp:
+        V("compile:" + comp, "non-conforming:layout-mismatch", "compiled gate sequence %s, layout %s [%s]" % (got, exp, cls))
+        return
+    pe = env["par_evaluate"]
+    c0 = compiled.circuit[0].op.p
+    if abs(float(pe(c0[0])) - case["r_lit"]) > 1e-9 or abs(float(pe(c0[1]))) > 1e-9:
+        V("compile:" + comp, "non-conforming:literal-changed", "Sgate%s, the layout fixes (%s, 0) [%s]" % ([float(pe(x)) for x in c0], case["r_lit"], cls))
+    c1 = compiled.circuit[1].op.p
+    if len(c1) > 1 and abs(float(pe(c1[1]))) > 1e-9:
+        V("compile:" + comp, "non-conforming:literal-changed", "BSgate phase %s, the layout fixes 0 [%s]" % (float(pe(c1[1])), cls))
+    arrays = [list(map(float, np.asarray(a, dtype=float).ravel())) for a in compiled.tdm_params]
+    names = ["bs", "r", "m"]
+    for nm, arr in zip(names, arrays):
+        bad = [v for v in arr if not in_ranges(v, gp[nm])]
+        if bad:
+            V("compile:" + comp, "non-conforming:out-of-range", "{%s} takes values %s outside %s [%s]" % (nm, np.round(bad[:4], 6).tolist(), gp[nm], cls))
+    if len(arrays[0]) > case["temporal_max"]:
+        V("compile:" + comp, "non-conforming:too-many-time-bins", "%d time bins, the device allows %d" % (len(arrays[0]), case["temporal_max"]))
+    rep.monitor("tdm1:unchanged")
+    if arrays != src_arrays:
+        V("compile:" + comp, "state-changed", "the %s compiler rewrote the parameter arrays of the program" % comp)
+
+
 TDM_LINE = re.compile(r"^\s*([A-Za-z0-9_]+)\((.*)\)\s*\|\s*\[?([0-9, ]+)\]?\s*$")
 
 
@@ -858,6 +955,8 @@ def finalize(res, tier):
 def run_case(case, rep, env):
     if case["family"] == "x":
         run_x_case(case, rep, env)
+    elif case["family"] == "tdm1":
+        run_tdm1_case(case, rep, env)
     else:
         run_tdm_case(case, rep, env)
 
@@ -871,7 +970,7 @@ def run_shard(shard, rep):
     env = load()
     rng = np.random.default_rng([shard["seed"], shard["id"], 12])
     for i in range(shard["n"]):
-        case = gen_tdm_case(rng) if (i % 10 == 3) else gen_x_case(rng)
+        case = gen_tdm_case(rng) if (i % 10 == 3) else (gen_tdm1_case(rng) if i % 10 == 6 else gen_x_case(rng))
         try:
             run_case(case, rep, env)
             if i % 41 == 7 and len(rep.samples) < 4:
